@@ -403,6 +403,9 @@ func c01FirstDiff(a, b []byte) int {
 	return n
 }
 
+// cooked sockets whose SendMsg defines the protocol header itself (whatever the message carried)
+var c01CookedSetsHeader = map[string]bool{"req": true, "rep": true, "surveyor": true, "respondent": true, "pair1": true, "star": true, "bus": true}
+
 // sendRaw transmits item it from end e (hdr: raw header to supply).  A Send that
 // fails did not accept the message — the property is silent about it: inconclusive.
 func (r *c01Run) sendRaw(e *c01End, it *c01Item, hdr []byte) bool {
@@ -417,6 +420,15 @@ func (r *c01Run) sendRaw(e *c01End, it *c01Item, hdr []byte) bool {
 		m.Body = append(m.Body, it.want...)
 		if e.raw {
 			m.Header = append(m.Header, hdr...)
+		} else if it.id%4 == 1 && c01CookedSetsHeader[e.proto] {
+			// an application that sends a message object it received earlier: Header still holds what
+			// the cooked socket left there on receipt (an id, a backtrace).  Cooked sockets of these
+			// patterns define the header themselves, so the peer must still get exactly the body.
+			m.Header = append(m.Header, byte(0x80|it.id>>24), byte(it.id>>16), byte(it.id>>8), byte(it.id))
+			if it.id%8 == 1 {
+				m.Header = append(m.Header, 0, 0, 0, byte(it.id))
+			}
+			r.c.Count("sent_with_leftover_header", 1)
 		}
 		if err = e.sock.SendMsg(m); err != nil {
 			m.Free()
@@ -743,6 +755,9 @@ func (r *c01Run) concRR(sizes []int) bool {
 		m.Body = append(m.Body, it.want...)
 		if e.raw {
 			m.Header = append(m.Header, hdr...)
+		} else if it.id%4 == 1 && c01CookedSetsHeader[e.proto] {
+			m.Header = append(m.Header, byte(0x80|it.id>>24), byte(it.id>>16), byte(it.id>>8), byte(it.id))
+			r.c.Count("sent_with_leftover_header", 1)
 		}
 		if err := rw.SendMsg(m); err != nil {
 			m.Free()
